@@ -37,6 +37,24 @@ Fixpoint code_of_from (k : N) (bs : list bool) : N :=
   end.
 Definition code_of (bs : list bool) : N := code_of_from 0 bs.
 
+(* tolerance-aware alignment of two sequences: matching heads are consumed together, otherwise a head that is
+   negligible (a zero-length move up to the printing resolution) may be skipped on either side *)
+Fixpoint align {A : Type} (fuel : nat) (matches : A -> A -> bool) (skip : A -> bool) (a b : list A) : bool :=
+  match fuel with
+  | O => false
+  | S k =>
+      match a, b with
+      | [], [] => true
+      | x :: ar, y :: br =>
+          if matches x y then align k matches skip ar br
+          else if skip x then align k matches skip ar b
+          else if skip y then align k matches skip a br
+          else false
+      | x :: ar, [] => skip x && align k matches skip ar []
+      | [], y :: br => skip y && align k matches skip [] br
+      end
+  end.
+
 Lemma list_eqb_eq {A : Type} (eqb : A -> A -> bool) :
   (forall a b, eqb a b = true <-> a = b) ->
   forall l1 l2, list_eqb eqb l1 l2 = true <-> l1 = l2.
